@@ -26,7 +26,24 @@ struct Init {
             p.technique = "deterministic simulation: seeded search over programs x schedules on a simulated MPI job, reference-model + independent-decoder oracles";
             std::string sid = id;
             p.gen = [gpf, sid](uint64_t seed, bool th) { return gen_program(seed, gpf(th), sid); };
-            p.check = [sid](Program &q) { RunOpts o; o.check_usage = (sid == "C13"); return run_program(q, o); };
+            p.check = [sid](Program &q) {
+                RunOpts o; o.check_usage = (sid == "C13"); RunResult r = run_program(q, o);
+                if (sid == "C08" && !r.violations.empty()) {
+                    // known finding: a rank with invalid arguments in a collective put to a record variable skips the record-count Allreduce;
+                    // everything observed at or after such an op in that run is attributed to it (tag), anything earlier is reported as usual
+                    bool safe = false; { auto e = q.cfg.sim.env.find("PNETCDF_SAFE_MODE"); safe = e != q.cfg.sim.env.end() && e->second != "0"; }
+                    int hazard = -1;
+                    for (size_t i = 0; i < q.ops.size() && hazard < 0 && !safe; i++) { const Op &op = q.ops[i]; if (op.skip || op.kind != OP_PUT || !op.coll || !op.snap) continue; }
+                    for (size_t i = 0; i < q.ops.size() && hazard < 0 && !safe; i++) {
+                        const Op &op = q.ops[i]; if (op.skip || op.kind != OP_PUT || !op.coll) continue;
+                        bool bad = false, reached = false; for (auto &a : op.acc) if (a.active && a.exp_rc != NC_NOERR) bad = true;
+                        for (auto &rr : r.rcs) if (i < rr.size() && rr[i].executed) reached = true;
+                        if (bad && reached && (op.a[5] == 1)) hazard = (int)i;
+                    }
+                    if (hazard >= 0 && (r.violations[0].op < 0 || r.violations[0].op >= hazard)) r.violations[0].detail += " [zero-req-hazard: op#" + std::to_string(hazard) + " is a collective put to a record variable in which a rank has invalid arguments]";
+                }
+                return r;
+            };
             p.nontrivial = nt; reg(p);
         };
         auto has_kind = [](const Program &q, int kind) { for (auto &op : q.ops) if (!op.skip && op.kind == kind) return true; return false; };
@@ -51,6 +68,9 @@ struct Init {
         simple("C16", "one seed = one schema with any subset of variables in fill mode (set_fill before/after definitions, def_var_fill with/without value), 1..8 ranks, partial writes, redefinitions adding fixed and record variables to files that already hold records, fill_var_rec; never-written elements are read through the API and decoded from the raw image; non-trivial = at least one fill-mode variable existed and was read or checkpointed",
                [](bool th) { GenParams g; g.fill = true; g.redef = true; g.max_np = th ? 8 : 6; g.max_data_ops = th ? 24 : 14; g.checkpoint_each = false; g.knobs = true; return g; },
                [](const Program &q, const RunResult &r) { bool f = false; for (auto &op : q.ops) if (!op.skip && (op.kind == OP_SET_FILL || op.kind == OP_DEF_VAR_FILL)) f = true; return r.completed && f; });
+        simple("C08", "one seed = one program whose collective put/get calls (var1/var/vara/vars/varm, varn, vard families; fixed and record variables) give each of 2..8 ranks valid, zero-length or invalid arguments (bad varid, start, edge, negative count, stride, char/number mismatch), with safe mode on in a quarter of the seeds (errors then shared), intra-node aggregation and hints varied, eager/synchronising collectives and starvation in the schedule; the simulated MPI matches every collective by sequence number and reports the first mismatch or deadlock exactly; oracle: no mismatch, no hang, each rank's return code as documented (own error locally / shared in safe mode), valid ranks' data stored; non-trivial = at least one rank had an invalid or zero-length request in a collective call on >= 2 ranks",
+               [](bool th) { GenParams g; g.invalid_args = true; g.min_np = 2; g.max_np = th ? 8 : 6; g.max_data_ops = th ? 20 : 12; g.hints = true; g.nonblocking = true; g.fill = true; g.max_dimlen = 4; return g; },
+               [](const Program &q, const RunResult &r) { if (q.cfg.sim.nprocs < 2 || !r.completed) return false; for (auto &op : q.ops) if (!op.skip && (op.kind == OP_PUT || op.kind == OP_GET) && op.coll) for (auto &a : op.acc) if (!a.active || a.invalid || a.exp_rc != NC_NOERR) return true; return false; });
         {   // C17 lifecycle of handles and resources
             Profile p; p.id = "C17"; p.level = "exploration";
             p.technique = "deterministic simulation with fault injection: seeded histories over several files + resource accounting at the allocation / MPI-object seams";
